@@ -63,7 +63,10 @@ Lemma vp_dm_unfold S d tid grp md x g bs acc :
         end
     end
   end.
-Proof. intros H. cbn [msg_decode_msg]. rewrite H. reflexivity. Qed.
+Proof.
+  intros H. cbn [msg_decode_msg]. rewrite H. destruct bs; [reflexivity|].
+  destruct (dec_tag (b :: bs)) as [[[num typ] r]|e]; [|reflexivity]. cbn [negb]. rewrite andb_true_r. reflexivity.
+Qed.
 
 Lemma vp_dm_none S d tid grp g bs acc :
   nth_error S tid = None -> msg_decode_msg false S (Datatypes.S d) tid grp g bs acc = DErr DSchema.
